@@ -603,7 +603,12 @@ func NewFakeNodeByType(extCard NodeCardinality, ntype NodeType, name string) Nod
 	}
 
 	node.node.NodeType = ntype
-	node.node.card = cardinalities[ntype]
+	// Every node gets its own copy: the extension cardinalities added below
+	// must not end up in the shared RFC table.
+	node.node.card = make(map[NodeType]Cardinality, len(cardinalities[ntype]))
+	for k, v := range yangCardinality(ntype) {
+		node.node.card[k] = v
+	}
 	if extCard == nil {
 		return node
 	}
